@@ -207,6 +207,20 @@ Definition backend_list_stores (ids : list store_id) (name : bytes)
   | _ :: _ => filter (fun st => beqb (snd st) name) by_id
   end.
 
+(* sqlite.go ListStores: `if len(options.IDs) > 0 { WHERE id IN (IDs) }`, `deleted_at IS NULL`
+   (the live list [all] holds undeleted stores only), then the name filter *)
+Definition backend_list_stores_sqlite (ids : list store_id) (name : bytes)
+           (all : list (store_id * bytes)) : list (store_id * bytes) :=
+  let by_id :=
+    match ids with
+    | [] => all
+    | _ :: _ => filter (fun st => bmem (fst st) ids) all
+    end in
+  match name with
+  | [] => by_id
+  | _ :: _ => filter (fun st => beqb (snd st) name) by_id
+  end.
+
 Inductive ls_result :=
 | LSDenied
 | LSStores (ids : list store_id).
@@ -217,6 +231,13 @@ Definition list_stores (g : grant_oracle) (la : list_oracle) (cl : claims) (name
   match accessible_stores g la cl with
   | None => LSDenied
   | Some ids => LSStores (map fst (backend_list_stores ids name all))
+  end.
+
+Definition list_stores_sqlite (g : grant_oracle) (la : list_oracle) (cl : claims) (name : bytes)
+           (all : list (store_id * bytes)) : ls_result :=
+  match accessible_stores g la cl with
+  | None => LSDenied
+  | Some ids => LSStores (map fst (backend_list_stores_sqlite ids name all))
   end.
 
 (* trigger of finding F9: the caller may list stores and the authorizer found none *)
